@@ -55,6 +55,9 @@ pub struct Case {
     /// additionally read after every `read_every` inserts (0 = no periodic reads)
     #[serde(default)]
     pub read_every: u16,
+    /// all values are multiplied by 10^scale_exp (the rank statistics do not depend on the unit)
+    #[serde(default)]
+    pub scale_exp: i8,
 }
 
 pub fn data(f: Family, n: usize, seed: u64) -> Vec<f64> {
@@ -96,8 +99,9 @@ impl Check for C04 {
     }
     fn eval(&self, c: &Case) -> Verdict {
         let n = c.n as usize;
-        let xs = data(c.family, n, c.seed);
-        let cfg = format!("{} delta={} backlog={} n={} data={}", c.scale.name(), c.delta, c.backlog, n, c.family.name());
+        let unit = 10f64.powi(c.scale_exp as i32);
+        let xs: Vec<f64> = data(c.family, n, c.seed).into_iter().map(|x| x * unit).collect();
+        let cfg = format!("{} delta={} backlog={} n={} data={} x 1e{}", c.scale.name(), c.delta, c.backlog, n, c.family.name(), c.scale_exp);
         let mut d = AnyTD::new(c.scale, c.delta, c.backlog);
         let mut read_at: Vec<usize> = c.reads.iter().map(|&r| idx(r, n.max(1))).collect();
         read_at.sort_unstable();
@@ -196,6 +200,7 @@ impl Check for C04 {
             .class_if(judged, "accuracy_judged")
             .class_if(!c.reads.is_empty(), "interleaved_reads")
             .class_if(c.read_every > 0, "periodic_reads")
+            .class_if(c.scale_exp != 0, "rescaled_values")
             .class_if(n >= 100_000, "n>=1e5");
         if worst_q > 0.6 || worst_fill > 0.9 {
             info.detail = Some(detail);
@@ -232,14 +237,15 @@ fn strategy(tier: Tier) -> BoxedStrategy<Case> {
         1 => 1u32..nmax,
     ];
     let read_every = prop_oneof![4 => Just(0u16), 1 => Just(1u16), 1 => 1u16..30, 1 => 1u16..2000];
-    (scale(), delta, backlog, n, fam, any::<u64>(), prop::collection::vec(any::<u16>(), 0..5), prop::collection::vec(0.0f64..=1.0, 0..8), read_every)
-        .prop_map(move |(scale, delta, backlog, n, family, seed, reads, qs, read_every)| {
+    let scale_exp = prop_oneof![3 => Just(0i8), 1 => -30i8..=30, 1 => prop_oneof![Just(-19i8), Just(-25), Just(12), Just(25)]];
+    (scale(), delta, backlog, n, fam, any::<u64>(), prop::collection::vec(any::<u16>(), 0..5), prop::collection::vec(0.0f64..=1.0, 0..8), read_every, scale_exp)
+        .prop_map(move |(scale, delta, backlog, n, family, seed, reads, qs, read_every, scale_exp)| {
             // a merge costs ~ (delta + backlog) log; every (backlog+1)-th insert (or periodic read) merges: cap the work
             let eff_backlog = if read_every > 0 { backlog.min(read_every as usize - 1) } else { backlog };
             let per_merge = delta.min(n as f64) + eff_backlog as f64 + 8.0;
             let merges = n as f64 / (eff_backlog as f64 + 1.0);
             let n = if merges * per_merge > budget { ((budget / per_merge) * (eff_backlog as f64 + 1.0)).max(1.0) as u32 } else { n };
-            Case { scale, delta, backlog, n: n.max(1), family, seed, reads, qs, read_every }
+            Case { scale, delta, backlog, n: n.max(1), family, seed, reads, qs, read_every, scale_exp }
         })
         .boxed()
 }
@@ -249,7 +255,7 @@ pub fn checks() -> Vec<Box<dyn DynCheck>> {
 }
 
 pub fn run(ctx: &Ctx) {
-    ctx.set_rule("generated: scale K0..K3 x delta in {1.1..1000} + random x max_backlog_size in {0,1,10,1000} + random x n in {1,3,10,...,1e5} + random (thorough up to 1e6; n capped so that merge work stays within budget) x data family (smooth: uniform, normal, exponential, sorted, reverse-sorted; ties/cliffs: lognormal sigma=3, 5-point discrete, half the mass tied + far block, two blocks 1e6 apart, constant) x interleaved reads at generated stream positions and, in 40 % of the cases, a read after every r inserts (r from 1 to 2000). Oracle: n_centroids() <= delta + 3 at every read and at the end; for q on a 201-point grid + generated q the rank interval of quantile(q) in the sorted data is within c*W + 2/n of q (c = 1 smooth, 3 ties/cliffs; K2/K3 judged for n >= delta); the same for cdf(x) at 51 data points + generated x. Non-trivial: n > delta and at least one merge before the end. Distinct = hash of the case. evaluations = digests + probes.");
+    ctx.set_rule("generated: scale K0..K3 x delta in {1.1..1000} + random x max_backlog_size in {0,1,10,1000} + random x n in {1,3,10,...,1e5} + random (thorough up to 1e6; n capped so that merge work stays within budget) x data family (smooth: uniform, normal, exponential, sorted, reverse-sorted; ties/cliffs: lognormal sigma=3, 5-point discrete, half the mass tied + far block, two blocks 1e6 apart, constant) x a unit factor 10^e (e in -30..=30 in 40 % of the cases: rank statistics must not depend on the magnitude of the values) x interleaved reads at generated stream positions and, in 40 % of the cases, a read after every r inserts (r from 1 to 2000). Oracle: n_centroids() <= delta + 3 at every read and at the end; for q on a 201-point grid + generated q the rank interval of quantile(q) in the sorted data is within c*W + 2/n of q (c = 1 smooth, 3 ties/cliffs; K2/K3 judged for n >= delta); the same for cdf(x) at 51 data points + generated x. Non-trivial: n > delta and at least one merge before the end. Distinct = hash of the case. evaluations = digests + probes.");
     ctx.assume("rank of quantile(q) judged against the closed interval [fraction < x - tol, fraction <= x + tol] with tol = 16 ulps of the data range x n");
     ctx.run_regressions(&[&C04]);
     let t = ctx.tier;
